@@ -58,6 +58,15 @@ def gen_T13():
     bare = [t for t in htr if len(t.handlers) == 1 and t.handlers[0].type is None
             and "iso-8859-1" in ast.unparse(t.body)]
     need(len(bare) == 1, '_handleToken: expected a bare except around the iso-8859-1 step')
+    # since the repair of C13.F15: the re-assembly is guarded by  nonAscii = any(ord(c) > 127 for c in token),
+    # computed before the token is encoded (any is utils.iter.any(p, iterable) in this module)
+    need('nonAscii = any(lambda c: ord(c) > 127, token)' in src, '_handleToken: nonAscii is no longer any(lambda c: ord(c) > 127, token)')
+    imp = [n for n in cb.body if isinstance(n, ast.ImportFrom) and n.module == 'utils.iter' and any(a.name == 'any' for a in n.names)]
+    need(len(imp) == 1, 'callbacks.py no longer imports any(p, iterable) from utils.iter')
+    guards = [n for n in ast.walk(ht) if isinstance(n, ast.If) and ast.unparse(n.test) == 'nonAscii'
+              and len(n.body) == 1 and n.body[0] is bare[0] and not n.orelse]
+    need(len(guards) == 1, '_handleToken: the iso-8859-1 step is no longer guarded by `if nonAscii:`')
+    need(src.index('nonAscii = any(') < src.index("codecs.getencoder('utf8')(token)[0]"), '_handleToken: nonAscii computed after encoding')
     # shlex defaults
     sh = tree('src/shlex.py')
     shinit = find_def(sh, '__init__', 'shlex')
